@@ -20,6 +20,8 @@ BODIES = {
  "plainp": "Just one paragraph.\n",
  "mail": "Write to <user@example.com> or <mailto:other@example.org> today.\n\n# Contact #\n\n<second@example.net>\n",
  "keylike": "Note: this first paragraph starts like a metadata key\nSecond: line\n\n# Head #\n\ntext\n",
+ "starword": "*foo*bar* baz and _x_y_ z\n\n**bold**start\n",
+ "emptykey": "Note:\nSee: other things\nThird: line\n\n# Head #\n\ntext\n",
  "table": "| a | b |\n|---|---|\n| c | d |\n\n### Deep ###\n\n*em* **st**\n",
 }
 
